@@ -160,6 +160,8 @@ class ConcatenatedLazyIndexer(LazyIndexer):
                                                            keep_tail)].reshape(tuple([-1] + shape_tails)))
                 out_data = np.concatenate(chunks)
             else:
+                # Negative indices count from the end of the concatenated data, as for a scalar index
+                keep_head = np.where(keep_head < 0, keep_head + len(self), keep_head)
                 # Form sequence of relevant indexer indices and local data indices with indexer offsets removed
                 indexers = find_indexer(keep_head)
                 local_indices = keep_head - indexer_starts[indexers]
